@@ -583,8 +583,78 @@ func ruleLKOwn(c *Ctx) {
 				}
 				n++
 				key := fmt.Sprintf("%s/new-compressor#%d", fnKey(fn), n)
-				c.Check(allowed[fn], key, P.pos(a.Pos()), "allocated per ReadFile call / per FileWriter", "a stateful compressor is allocated outside ReadFile/NewFileWriter")
+				okOwn := allowed[fn] || onlyReturned(a) && calledOnlyFrom(P, fn, allowed, 0)
+				c.Check(okOwn, key, P.pos(a.Pos()), "allocated per ReadFile call / per FileWriter (directly, or by a helper that only returns it to them)", "a stateful compressor is allocated outside ReadFile/NewFileWriter")
 			}
 		}
 	}
+}
+
+// onlyReturned: the allocation's only uses are being returned (possibly as an
+// interface value, possibly through phis) — it is not stored anywhere.
+func onlyReturned(a ssa.Value) bool {
+	seen := map[ssa.Value]bool{}
+	var rec func(v ssa.Value) bool
+	rec = func(v ssa.Value) bool {
+		if seen[v] {
+			return true
+		}
+		seen[v] = true
+		for _, r := range referrersOf(v) {
+			switch x := r.(type) {
+			case *ssa.DebugRef, *ssa.Return:
+			case *ssa.MakeInterface:
+				if !rec(x) {
+					return false
+				}
+			case *ssa.Phi:
+				if !rec(x) {
+					return false
+				}
+			case *ssa.FieldAddr:
+				// initialising the fresh object's own fields
+				for _, rr := range referrersOf(x) {
+					if st, ok := rr.(*ssa.Store); !ok || st.Addr != ssa.Value(x) {
+						return false
+					}
+				}
+			default:
+				return false
+			}
+		}
+		return true
+	}
+	return rec(a)
+}
+
+// calledOnlyFrom: fn is never used as a value and every call of it is in an
+// allowed function (or in a helper for which the same holds).
+func calledOnlyFrom(P *Program, fn *ssa.Function, allowed map[*ssa.Function]bool, depth int) bool {
+	if depth > 3 {
+		return false
+	}
+	n := 0
+	for _, g := range P.ModuleFuncs() {
+		for _, b := range g.Blocks {
+			for _, in := range b.Instrs {
+				for _, op := range in.Operands(nil) {
+					if *op != ssa.Value(fn) {
+						continue
+					}
+					ci, isCall := in.(ssa.CallInstruction)
+					if !isCall || ci.Common().Value != ssa.Value(fn) {
+						return false
+					}
+					if _, plain := in.(*ssa.Call); !plain {
+						return false
+					}
+					if !allowed[g] {
+						return false
+					}
+					n++
+				}
+			}
+		}
+	}
+	return n > 0
 }
